@@ -2,11 +2,11 @@ package main
 
 import (
 	"fmt"
-	"os"
 	"go/constant"
 	"go/token"
 	"go/types"
 	"math/big"
+	"os"
 	"strings"
 
 	"golang.org/x/tools/go/ssa"
@@ -86,6 +86,8 @@ type Exec struct {
 	makeSliceMax int
 	events       []string
 	fnStack      []*ssa.Function
+
+	injectFailures bool
 }
 
 func (e *Exec) callerIsInit() bool {
@@ -756,7 +758,7 @@ func (e *Exec) eval(fr *frame, in ssa.Value) Value {
 			return e.selectVals(x.E, idx)
 		case VStr:
 			if idx.Const {
-				return VInt{BVu(8, uint64(x.S[idx.U.Int64()]))}
+				return VInt{byteC(uint64(x.S[idx.U.Int64()]))}
 			}
 		}
 		e.fail("Index on %T", x)
@@ -1094,7 +1096,7 @@ func (e *Exec) convert(x Value, from, to types.Type) Value {
 			n := len(a.S)
 			arr := newCell(types.NewArray(types.Typ[types.Uint8], int64(n)))
 			for i := 0; i < n; i++ {
-				arr.Elems[i].V = VInt{BVu(8, uint64(a.S[i]))}
+				arr.Elems[i].V = VInt{byteC(uint64(a.S[i]))}
 			}
 			return VSlice{arr, 0, n, n}
 		}
@@ -1272,7 +1274,7 @@ func (e *Exec) builtin(b *ssa.Builtin, args []Value, c *ssa.CallCommon) Value {
 				n = len(src.S)
 			}
 			for i := 0; i < n; i++ {
-				store(dst.Arr.Elems[dst.Off+i], VInt{BVu(8, uint64(src.S[i]))})
+				store(dst.Arr.Elems[dst.Off+i], VInt{byteC(uint64(src.S[i]))})
 			}
 		}
 		return VInt{lenC(n)}
@@ -1286,7 +1288,7 @@ func (e *Exec) builtin(b *ssa.Builtin, args []Value, c *ssa.CallCommon) Value {
 			}
 		case VStr:
 			for i := 0; i < len(src.S); i++ {
-				add = append(add, VInt{BVu(8, uint64(src.S[i]))})
+				add = append(add, VInt{byteC(uint64(src.S[i]))})
 			}
 		}
 		if len(add) == 0 {
@@ -1337,7 +1339,6 @@ func (e *Exec) builtin(b *ssa.Builtin, args []Value, c *ssa.CallCommon) Value {
 	e.fail("builtin %s on %T", b.Name(), args[0])
 	return nil
 }
-
 
 // ---- byte slices with symbolic offset/length over a concrete-capacity array ----
 
@@ -1435,7 +1436,6 @@ func (e *Exec) symSlice(fr *frame, in *ssa.Slice, x Value) (Value, bool) {
 	e.oblige(okb, "panic", "slice bounds out of range in "+fr.fn.String())
 	return normSlice(VSymSlice{ss.Arr, tAdd(ss.Off, lo), tSub(hi, lo)}), true
 }
-
 
 // globals written by package init are snapshotted after init and restored (deep copy, so a
 // path cannot leak mutations of init-built tables into the next path) before every path
